@@ -14,7 +14,7 @@ from kverif.common import Deadline, case_rng, stable_hash, tier_value
 ID = 'C12'
 LEVEL = 'exploration'
 EXHAUSTIVE = True
-RULE = ('exhaustive over (pipe,data,model) with product <= 24 (thorough <= 64), every local rank, cost families (uniform, ties, zeros, random, geometric; 1..2*stage+1 layers); '
+RULE = ('exhaustive over (pipe,data,model) with product <= 24 (thorough <= 96), every local rank, cost families (uniform, ties, zeros, random, geometric; 1..2*stage+1 layers); '
         'non-trivial: world>1 and (model>1 or data>1); distinct = (pp,dp,mp,family); digests compared across PYTHONHASHSEED 0/1/4242')
 ASSUMPTIONS = ['the DeepSpeed topology is the stand-in in stubs/deepspeed (axes pipe,data,model; row-major)',
                'group handles are opaque recorder tuples']
@@ -133,7 +133,7 @@ def topologies(limit):
 
 
 def plan(tier, seed):
-    tops = topologies(tier_value(tier, 24, 64))
+    tops = topologies(tier_value(tier, 24, 96))
     nsh = tier_value(tier, 4, 8)
     specs = []
     for hs in (0, 1, 4242):
